@@ -1,7 +1,7 @@
 (* C18 group 2 - models of the handshake message codecs of /repo/pkg/protocol/handshake
    (definitions only).  Tables (signature schemes, curves, certificate types) come from
    Gen/Generated.v, i.e. from the current tree. *)
-From DtlsV Require Import Lib.Bytes Gen.Generated Codec.C18Comb Codec.C18Rec.
+From DtlsV Require Import Lib.Bytes Gen.Generated Codec.C18Comb Codec.C18Rec Codec.C18Ext.
 Open Scope N_scope.
 
 (* ------------------------------------------------------------------ small helpers *)
@@ -63,11 +63,12 @@ Definition sigalg_wf (hs : N * N) : bool :=
 Definition c_sigalg : codec (N * N) :=
   c_map sig_of_scheme sig_scheme_of sigalg_wf (c_guard (fun _ => true) sig_in_table (c_u 2)).
 
-(* message_certificate_verify.go: scheme, signature<0..2^16-1>, exact length.  Marshal refuses
-   hash or signature values above 0xFF (so the PSS schemes decode but do not re-encode) and
-   requires hash<<8|signature to be a known scheme. *)
+(* message_certificate_verify.go: scheme, signature<0..2^16-1>, exact length.  Marshal writes
+   signaturehash.Algorithm.Marshal (two-byte scheme for RSA-PSS, hash||signature bytes otherwise)
+   after checking that the pair is what Algorithm.Unmarshal makes of those two bytes; outside
+   PSS, hash and signature must fit a byte. *)
 Definition cv_enc_ok (x : (N * N) * bytes) : bool :=
-  let '((h, s), _) := x in (h <=? 255) && (s <=? 255) && sig_in_table (h * 256 + s).
+  let '((h, s), _) := x in (is_pss s || ((h <=? 255) && (s <=? 255))) && sigalg_wf (h, s).
 Definition cv_body : codec ((N * N) * bytes) := c_seq c_sigalg (c_vec 2 w_rest).
 Definition w_cert_verify : wcodec ((N * N) * bytes) := w_guard cv_enc_ok (fun _ => true) (w_exact cv_body).
 
@@ -80,6 +81,7 @@ Definition kx_ecdhe (kx : N) : bool := N.testbit kx 2.
 
 Definition cke : Type := (option bytes * option bytes)%type.
 
+(* MessageClientKeyExchange.Marshal (no context) *)
 Definition cke_enc (x : cke) : option bytes :=
   let '(hint, pk) := x in
   match hint, pk with
@@ -92,40 +94,41 @@ Definition cke_enc (x : cke) : option bytes :=
       end
   end.
 
-Definition cke_dec (kx : N) (b : bytes) : option cke :=
-  if len b <? 2 then None                                           (* ErrBufferTooSmall *)
-  else if kx =? 0 then None                                         (* ErrCipherSuiteUnset *)
-  else
-    let psk_part :=
-      if kx_psk kx then
-        let l := be_dec (firstn 2 b) in
-        if len b - 2 <? l then None
-        else Some (Some (take l (skipn 2 b)), l + 2)
-      else Some (None, 0) in
-    match psk_part with
-    | None => None
-    | Some (hint, off) =>
-        if kx_ecdhe kx then
-          match drop off b with
-          | [] => None                       (* the implementation indexes data[offset] here: PANIC *)
-          | pkl :: rest =>
-              if len rest <? pkl then None
-              else Some (hint, Some rest)    (* the declared length pkl is otherwise ignored *)
-          end
-        else Some (hint, None)               (* bytes after the identity are ignored *)
-    end.
+(* MessageClientKeyExchange.Unmarshal: opaque psk_identity<0..2^16-1> if PSK, then
+   opaque point<1..255> if ECDHE - exactly the declared bytes; whatever follows is ignored.
+   (The leading "len(data) < 2" check is implied by each of the three layouts.) *)
+Definition odef (o : option bytes) : bytes := match o with Some b => b | None => [] end.
+Definition w_cke_psk : wcodec cke :=
+  w_map (fun h => (Some h, None)) (fun x => odef (fst x))
+        (fun x => match x with (Some _, None) => true | _ => false end)
+        (w_lenient (c_opaque 2)).
+Definition w_cke_ecdhe : wcodec cke :=
+  w_map (fun k => (None, Some k)) (fun x => odef (snd x))
+        (fun x => match x with (None, Some _) => true | _ => false end)
+        (w_lenient (c_opaque1 1)).
+Definition w_cke_both : wcodec cke :=
+  w_map (fun y => (Some (fst y), Some (snd y))) (fun x => (odef (fst x), odef (snd x)))
+        (fun x => match x with (Some _, Some _) => true | _ => false end)
+        (w_lenient (c_seq (c_opaque 2) (c_opaque1 1))).
+(* ErrCipherSuiteUnset *)
+Definition w_cke_unset : wcodec cke := {| wwf _ := false; wenc _ := None; wdec _ := None |}.
+(* an algorithm value with neither bit (never constructed by the library): nothing is read *)
+Definition w_cke_neither : wcodec cke :=
+  {| wwf _ := false; wenc _ := None; wdec b := if len b <? 2 then None else Some (None, None) |}.
 
-Definition cke_wf (kx : N) (x : cke) : bool :=
-  let '(hint, pk) := x in
-  negb (kx =? 0) &&
-  (match hint with Some h => kx_psk kx && (len h <? 65536) && bytes_ok h | None => negb (kx_psk kx) end) &&
-  (match pk with
-   | Some k => kx_ecdhe kx && (len k <=? 255) && bytes_ok k &&
-               (match hint with Some _ => true | None => 1 <=? len k end)
-   | None => negb (kx_ecdhe kx)
-   end) &&
-  (match hint, pk with None, None => false | _, _ => true end).
+Definition w_cke_layout (kx : N) : wcodec cke :=
+  if kx =? 0 then w_cke_unset
+  else match kx_psk kx, kx_ecdhe kx with
+       | true, true => w_cke_both
+       | true, false => w_cke_psk
+       | false, true => w_cke_ecdhe
+       | false, false => w_cke_neither
+       end.
 
+Definition cke_dec (kx : N) (b : bytes) : option cke := wdec (w_cke_layout kx) b.
+Definition cke_wf (kx : N) (x : cke) : bool := wwf (w_cke_layout kx) x.
+
+(* the Go pair: context-free Marshal, context-dependent Unmarshal *)
 Definition w_cke (kx : N) : wcodec cke := {| wwf := cke_wf kx; wenc := cke_enc; wdec := cke_dec kx |}.
 
 (* ------------------------------------------------------------------ the message sum *)
